@@ -6,6 +6,17 @@ from props import common as cm
 def run(tier):
     r = Run('C08', tier, level='other')
     cm.run_kernels(r, cm.kernels('c_aggregate', 'c_flathomogen'), quick_cap=1500)
+    try:
+        import traceback
+        from vf import pproof, engp
+        obls, npaths = wrapper_obligations()
+        pproof.discharge(r, obls, file='src/hydrodiy/data/dutils.py', fn_of=lambda ob: ob.id.split('/')[1] + ' (python wrapper)')
+        r.functions += [dict(file='dutils.py', fn=f + ' (python wrapper)', trusted=['c_hydrodiy_data (replaced by a recorder: its behaviour is the proved kernel contract)'], nonterminating=[], cutloops=0, unrolled=0, terminating=0) for f in ('aggregate', 'flathomogen')]
+        r.extra['paths_explored'] = npaths
+    except (engp.Unsupported, engp.PathLimit) as e:
+        r.undecided.append('Engine P cannot execute the current dutils wrappers symbolically: %s' % (str(e)[:300],))
+    except Exception:
+        r.broken.append('C08 Engine P driver crashed: ' + traceback.format_exc()[-2500:])
     from vf import child
     res = child.run('props.C08', 'monitors_child', r.prop, r.tier, r.seed)
     child.merge(r, res['recorder'])
@@ -133,3 +144,84 @@ def monitors_child(rec):
                 bad += 1; _fail(rec, 'monthly2daily', 'raises: %s %s (%s)' % (type(e).__name__, str(e)[:150], interp), start=str(idx[0].date()), months=nm, values=vals.tolist()[:40])
     rec.bounded_clause('monthly2daily (flat / cubic): one value per calendar day, sum over each month == the monthly input', '%d month-start series of 2..240 months starting in any month of 9 years (leap years, 1900, 2100) with non-negative values' % (60 if quick else 600),
                        ev, DD.n('monthly2daily'), False, bad)
+
+
+# ------------------------------------------------------------------------------------------------ Engine P: the python wrappers of c_aggregate / c_flathomogen
+def wrapper_obligations():
+    """the real dutils.aggregate / flathomogen executed on a symbolic input series with the compiled module replaced by a recorder: the kernel is
+    entered once with the operator, maxnan, the index and the series unchanged and buffers of the right size; aggregate returns the first
+    `iend` values the kernel wrote, flathomogen the whole buffer; series of different length than the index are rejected."""
+    import numpy as np, z3
+    from vf import engp, pproof, pybuild
+    from vf.engp import sym, SymReal, SA
+    pybuild.activate()
+    from hydrodiy.data import dutils as D
+
+    class Kernel:
+        def __init__(self):
+            self.calls = []
+
+        def aggregate(self, operator, maxnan, aggindex, inputs, outputs, iend):
+            self.calls.append(dict(fn='aggregate', operator=operator, maxnan=maxnan, aggindex=np.array(aggindex), inputs=list(np.asarray(inputs, dtype=object).ravel()), nout=len(outputs), iend0=int(iend[0]),
+                                   dtypes=(np.asarray(aggindex).dtype, type(operator), type(maxnan), np.asarray(iend).dtype)))
+            outputs[:] = [sym('out%d' % i) for i in range(len(outputs))]; iend[0] = self.k
+            self.written = list(outputs); return 0
+
+        def flathomogen(self, maxnan, aggindex, inputs, outputs):
+            self.calls.append(dict(fn='flathomogen', maxnan=maxnan, aggindex=np.array(aggindex), inputs=list(np.asarray(inputs, dtype=object).ravel()), nout=len(outputs),
+                                   dtypes=(np.asarray(aggindex).dtype, type(maxnan))))
+            outputs[:] = [sym('out%d' % i) for i in range(len(outputs))]
+            self.written = list(outputs); return 0
+
+    obls = []; npaths = 0
+    n = 4
+    x = [SymReal(z3.Real('x%d' % i), z3.Bool('x%d!nan' % i)) for i in range(n)]
+    names = ['x%d' % i for i in range(n)]
+    eq = lambda a, b: z3.Or(z3.And(SymReal.lift(a).nan, SymReal.lift(b).nan), z3.And(z3.Not(SymReal.lift(a).nan), z3.Not(SymReal.lift(b).nan), SymReal.lift(a).val == SymReal.lift(b).val))
+    idx = np.array([200001, 200001, 200002, 200005])
+    for fn in ('aggregate', 'flathomogen'):
+        for (op, maxnan, kout) in ((0, 0, 3), (2, 1, 1), (3, 5, 0)):
+            kern = Kernel(); kern.k = kout
+
+            def run():
+                kern.calls = []
+                v = np.empty(n, dtype=object); v[:] = x
+                if fn == 'aggregate':
+                    return D.aggregate(idx, v.view(SA), op, maxnan), list(kern.calls)
+                return D.flathomogen(idx, v.view(SA), maxnan), list(kern.calls)
+            saved = (D.np, D.c_hydrodiy_data, D.has_c_module)
+            D.np = engp.NPProxy(); D.c_hydrodiy_data = kern; D.has_c_module = lambda *a, **kw: True
+            try:
+                paths = engp.explore(run, base=[], allowed_exc=())
+            finally:
+                D.np, D.c_hydrodiy_data, D.has_c_module = saved
+            npaths += len(paths)
+            for kp, pa in enumerate(paths):
+                out, calls = pa.result
+                hyp = list(pa.pc) + list(pa.axioms)
+                tag = 'dutils.py/%s/op=%d,maxnan=%d/path%d' % (fn, op, maxnan, kp)
+                if len(calls) != 1:
+                    obls.append(pproof.PObligation(tag + '/one-kernel-call', 'post', 'the kernel is entered exactly once', hyp, z3.BoolVal(False), names)); continue
+                c = calls[0]
+                okscal = int(c['maxnan']) == maxnan and (fn != 'aggregate' or (int(c['operator']) == op and c['iend0'] == 0)) and c['aggindex'].tolist() == idx.tolist() and c['dtypes'][0] == np.int32 and c['nout'] == n
+                obls.append(pproof.PObligation(tag + '/scalars-index-buffers', 'post', '%s passes operator / maxnan / the index (as int32) unchanged and an output buffer of the length of the series' % fn, hyp, z3.BoolVal(bool(okscal)), names))
+                obls.append(pproof.PObligation(tag + '/series', 'post', '%s passes the series unchanged (missing values stay missing)' % fn, hyp, z3.And(z3.BoolVal(len(c['inputs']) == n), *[eq(c['inputs'][i], x[i]) for i in range(min(n, len(c['inputs'])))]), names))
+                o = list(np.asarray(out, dtype=object).ravel())
+                want = kern.written[:kout] if fn == 'aggregate' else kern.written
+                obls.append(pproof.PObligation(tag + '/returns-kernel-output', 'post', '%s returns %s' % (fn, 'the first iend values the kernel wrote' if fn == 'aggregate' else 'the buffer the kernel wrote'), hyp,
+                                               z3.And(z3.BoolVal(len(o) == len(want)), *[eq(o[i], want[i]) for i in range(min(len(o), len(want)))]), names))
+    # length mismatch is rejected before the kernel is entered
+    for fn in ('aggregate', 'flathomogen'):
+        kern = Kernel(); kern.k = 0
+        saved = (D.np, D.c_hydrodiy_data, D.has_c_module)
+        D.np = engp.NPProxy(); D.c_hydrodiy_data = kern; D.has_c_module = lambda *a, **kw: True
+        try:
+            v = np.empty(n - 1, dtype=object); v[:] = x[:n - 1]
+            try:
+                getattr(D, fn)(idx, v.view(SA)); rejected = False
+            except ValueError:
+                rejected = True
+        finally:
+            D.np, D.c_hydrodiy_data, D.has_c_module = saved
+        obls.append(pproof.PObligation('dutils.py/%s/length-mismatch' % fn, 'post', '%s rejects a series whose length differs from the index without entering the kernel' % fn, [], z3.BoolVal(rejected and not kern.calls), names))
+    return obls, npaths
